@@ -70,7 +70,11 @@ def replay(w):
             n = W
             lam = _ro(np.full((n, n), 0.1))
             T = sum(len(s) - W + 1 for s in series)
-            beta = 5.0 if (joint and not nt.get('vector')) else _ro(np.full((T,), 5.0))
+            beta = 5.0 if (joint and not nt.get('vector')) else np.full((T,), 5.0)
+            if isinstance(beta, np.ndarray):
+                if nt.get('inf_beta'):
+                    beta[0] = np.inf
+                beta = _ro(beta)
             args = series + [lam] + ([beta] if isinstance(beta, np.ndarray) else [])
             lst = list(series)
             kw = dict(window_size=W, num_clusters=K, iteration_limit=2, min_cluster_size=2, sparsity_weight=lam,
